@@ -588,6 +588,17 @@ func (s *sim) gossipSlot(slot uint64, blk *blockRec, parent *blockRec, hb *state
 						s.judge(g, "attestation", what+" re-dated before the block it votes for", expInvalid, res, p)
 					}
 				}
+			case mode == 11: // a bitlist that is one byte longer than the committee
+				bad := *att
+				lb := make(phase0.AttestationBits, (len(comm)+8)/8+1)
+				lb[(len(comm)+8)/8] |= 1 << (uint(len(comm)+8) % 8)
+				lb[pos/8] |= 1 << (uint(pos) % 8)
+				bad.AggregationBits = lb
+				res, p := validate(func() gossipval.GossipValidatorResult {
+					_, x := gossipval.ValidateAttestation(ctx, subnet, &bad, g)
+					return x
+				})
+				s.judge(g, "attestation", what+" whose bitlist is longer than its committee", expInvalid, res, p)
 			case mode == 8: // the shuffling state cannot be reached in time
 				g.timeout = true
 				res, p := validate(func() gossipval.GossipValidatorResult {
@@ -667,6 +678,15 @@ func (s *sim) gossipSlot(slot uint64, blk *blockRec, parent *blockRec, hb *state
 				bad.Signature = w.keys.sign(ki, signingRoot(bad.Message.HashTreeRoot(spec, tree.GetHashFn()), aapDom))
 				res, p := run(&bad)
 				s.judge(g, "aggregate_and_proof", what+" with a corrupted selection proof", expInvalid, res, p)
+			case 4:
+				// an aggregate nobody took part in
+				bad := *signed
+				empty := make(phase0.AttestationBits, len(comm)/8+1)
+				empty[len(comm)/8] |= 1 << (uint(len(comm)) % 8)
+				bad.Message.Aggregate.AggregationBits = empty
+				bad.Signature = w.keys.sign(ki, signingRoot(bad.Message.HashTreeRoot(spec, tree.GetHashFn()), aapDom))
+				res, p := run(&bad)
+				s.judge(g, "aggregate_and_proof", what+" without a single participant", expInvalid, res, p)
 			case 2:
 				bad := *signed
 				flipSig(&bad.Message.Aggregate.Signature)
@@ -911,6 +931,11 @@ func (s *sim) gossipSlot(slot uint64, blk *blockRec, parent *blockRec, hb *state
 				what += edge
 				s.wireCheck("sync_committee_message", m, func() sszPlain { return new(altair.SyncCommitteeMessage) }, true, altair.SyncCommitteeMessageType)
 				s.judge(g, "sync_committee", what, exp, res, p)
+				if !s.stop && exp == expAccept && r.Chance(1, 3) {
+					res, p = run(subnet, m)
+					s.res.Stat("fault_dup", 1)
+					s.judge(g, "sync_committee", what+" delivered twice", expTiming, res, p)
+				}
 			}
 			if aggregator < 0 || s.stop {
 				continue
@@ -937,7 +962,35 @@ func (s *sim) gossipSlot(slot uint64, blk *blockRec, parent *blockRec, hb *state
 					return x
 				})
 			}
-			switch r.Intn(6) {
+			switch r.Intn(8) {
+			case 6:
+				// aggregator that sits in the committee but not in THIS subcommittee
+				inThis := map[common.BLSPubkey]bool{}
+				for pos := subnet * sub; pos < (subnet+1)*sub; pos++ {
+					inThis[pubs[pos]] = true
+				}
+				for pos := uint64(0); pos < size; pos++ {
+					if inThis[pubs[pos]] {
+						continue
+					}
+					ki2 := w.indexOfPub(pubs[pos])
+					vi2, ok := hb.epc.ValidatorPubkeyCache.ValidatorIndex(pubs[pos])
+					if ki2 < 0 || !ok {
+						continue
+					}
+					sel2 := w.keys.sign(ki2, signingRoot(selData.HashTreeRoot(tree.GetHashFn()), selDom))
+					cap2 := altair.ContributionAndProof{AggregatorIndex: vi2, Contribution: contrib, SelectionProof: sel2}
+					bad := &altair.SignedContributionAndProof{Message: cap2, Signature: w.keys.sign(ki2, signingRoot(cap2.HashTreeRoot(spec, tree.GetHashFn()), capDom))}
+					res, p := run(bad)
+					s.judge(g, "sync_contribution", fmt.Sprintf("sync contribution for subcommittee %d (slot %d) by validator %d, who is in the sync committee but not in that subcommittee", subnet, slot, vi2), expInvalid, res, p)
+					break
+				}
+			case 7:
+				bad := *signed
+				flipSig(&bad.Message.SelectionProof)
+				bad.Signature = w.keys.sign(aggregator, signingRoot(bad.Message.HashTreeRoot(spec, tree.GetHashFn()), capDom))
+				res, p := run(&bad)
+				s.judge(g, "sync_contribution", what+" with a corrupted selection proof", expInvalid, res, p)
 			case 0:
 				bad := *signed
 				flipSig(&bad.Signature)
